@@ -147,6 +147,15 @@ def generated_inputs(ctx: Ctx, per_format: int):
     for fmt in c14.FORMATS_IMG:
         ext = PROFILES[fmt]["ext"] if fmt in PROFILES else fmt
         collect("img-" + fmt, c14.cases(fmt), lambda c: c14.build(c)[0], ext, max(2, per_format // 2))
+    # office documents whose core properties lack one or both timestamps (nothing may be filled in from the clock)
+    from vf.gen import ooxml
+    from vf.gen.tokens import make as _mk
+    for dates in ("created", "modified", "none"):
+        g = {"props": {"title": "T", "_dates": dates}, "sheets": [{"name": "S1", "origin": [0, 0], "hdr_rows": 0, "rows": [[{"t": "s", "v": _mk("B", 8800)}, {"t": "n", "v": 4}]]}]}
+        out.append({"name": f"dates:{dates}.xlsx", "ext": "xlsx", "data": sheets.render_xlsx(g)})
+        d = {"units": [{"blocks": [{"k": "p", "inl": [{"k": "t", "tok": _mk("B", 8801), "sty": 0}], "h": None}], "notes": None}], "props": {"title": "T", "_dates": dates}}
+        out.append({"name": f"dates:{dates}.docx", "ext": "docx", "data": ooxml.render_docx(d)})
+        out.append({"name": f"dates:{dates}.pptx", "ext": "pptx", "data": ooxml.render_pptx(d)})
     # pairs that differ in an optional part (comments), richer one first: the in-process digest of the second must still equal its
     # fresh-interpreter digest (nothing of the first may stick to a class or module)
     from vf.props.c15 import _gen_office
